@@ -94,6 +94,7 @@ InitObs(c) ==
     crashed |-> FALSE, cdur |-> <<>>, base |-> "-", wasRunning |-> FALSE,
     old |-> FALSE, rec |-> TRUE, csnap |-> <<>>, creason |-> "-",
     rterm |-> [o \in N |-> "none"],
+    wfailed |-> FALSE,                 \* a durable write of this process lifetime has failed (injected)
     startOk |-> 0, startOpen |-> 0, startAfterOk |-> 0 ]
 
 EmptyObs == [cfg |-> [objs |-> <<>>, blocks |-> <<>>, retries |-> 0, cretries |-> 0, mode |-> "none", fn |-> FALSE, tag |-> ""],
@@ -301,6 +302,10 @@ C08_TerminalBeforeRelease(s, e) ==
     /\ (s.waited # <<>> /\ IsW(e)) => FALSE
 C08_Monotone(s, e) == (e.ev = "R" /\ D(s, e.obj).k \in {"blk", "seq", "act"}) =>
     (s.rterm[e.obj] # "none" => e.st = s.rterm[e.obj])
+\* fail-stop: a state change that could not be made durable is never acted on. The scenarios that inject a write
+\* failure are strictly sequential (one goroutine writes), so nothing at all may follow the failed write in that
+\* process lifetime: no plugin invocation, no further write, no released waiter. (The code ends the process.)
+C08_FailStop(s, e) == (s.wfailed /\ e.ev \in {"PStart", "W", "WaitRet"}) => FALSE
 
 (* ---------------- C09: no re-execution after a crash ---------------- *)
 \* (the deferred checks of a block that had failed but not yet run them are still owed after the restart: running
@@ -367,7 +372,7 @@ ClauseNames == {
     "C03_Bound", "C03_StopExact", "C03_BlockVerdict", "C03_AfterFailedBlock",
     "C04_WaitReturns", "C04_Terminal", "C04_NothingRunning", "C04_Quiescent", "C04_Stable", "C04_Consistent", "C04_Times", "C04_Reason",
     "C04_FailedCheckFailsPlan",
-    "C05_Bound", "C05_StopOnFinal", "C05_OneAttemptPerCall", "C05_Recorded", "C05_Overrun", "C05_AttemptIsItsCall",
+    "C05_Bound", "C05_StopOnFinal", "C05_OneAttemptPerCall", "C05_Recorded", "C05_Overrun", "C05_AttemptIsItsCall", "C08_FailStop",
     "C06_BypassSkips", "C06_BypassFailRuns", "C06_PreFailBlocks", "C06_ContInitialFail",
     "C07_ContKeepsRunning", "C07_ContFailureFails", "C07_DeferredOnce", "C07_DeferredFails", "C07_DeferredNotAgain",
     "C08_RunningBeforeInvoke", "C08_AttemptBeforeNext", "C08_TerminalBeforeRelease", "C08_Monotone",
@@ -391,7 +396,7 @@ Holds(c, s, e) ==
       [] c = "C04_Reason" -> C04_Reason(s, e) [] c = "C04_FailedCheckFailsPlan" -> C04_FailedCheckFailsPlan(s, e)
       [] c = "C05_Bound" -> C05_Bound(s, e) [] c = "C05_StopOnFinal" -> C05_StopOnFinal(s, e)
       [] c = "C05_OneAttemptPerCall" -> C05_OneAttemptPerCall(s, e) [] c = "C05_Recorded" -> C05_Recorded(s, e)
-      [] c = "C05_Overrun" -> C05_Overrun(s, e) [] c = "C05_AttemptIsItsCall" -> C05_AttemptIsItsCall(s, e)
+      [] c = "C05_Overrun" -> C05_Overrun(s, e) [] c = "C05_AttemptIsItsCall" -> C05_AttemptIsItsCall(s, e) [] c = "C08_FailStop" -> C08_FailStop(s, e)
       [] c = "C06_BypassSkips" -> C06_BypassSkips(s, e) [] c = "C06_BypassFailRuns" -> C06_BypassFailRuns(s, e)
       [] c = "C06_PreFailBlocks" -> C06_PreFailBlocks(s, e) [] c = "C06_ContInitialFail" -> C06_ContInitialFail(s, e)
       [] c = "C07_ContKeepsRunning" -> C07_ContKeepsRunning(s, e) [] c = "C07_ContFailureFails" -> C07_ContFailureFails(s, e)
@@ -422,13 +427,13 @@ ClausesFor(t) ==
   CASE t = "PStart" -> {"C01_BlockOrder", "C01_ActionOrder", "C01_PreGate", "C01_PostAfterSeqs", "C01_DeferredLast", "C02_Bound", "C02_OneBlock",
                         "C03_AfterFailedBlock", "C04_Quiescent", "C05_Bound", "C05_StopOnFinal", "C06_BypassSkips", "C06_PreFailBlocks",
                         "C06_ContInitialFail", "C08_RunningBeforeInvoke", "C08_AttemptBeforeNext", "C09_NoRedoAction", "C09_NoRedoFinished",
-                        "C09_OnlyInFlight", "C10_Quiescent", "C11_Untouched", "C11_AgedOut", "C12_AtMostOnce", "C07_DeferredNotAgain"}
+                        "C09_OnlyInFlight", "C10_Quiescent", "C11_Untouched", "C11_AgedOut", "C12_AtMostOnce", "C07_DeferredNotAgain", "C08_FailStop"}
     [] t = "W" -> {"C07_DeferredFails", "C03_Bound", "C03_StopExact", "C03_BlockVerdict", "C04_Quiescent", "C05_OneAttemptPerCall", "C05_AttemptIsItsCall", "C06_ContInitialFail",
-                   "C07_ContFailureFails", "C08_TerminalBeforeRelease", "C10_Quiescent", "C11_Untouched", "C12_AtMostOnce"}
+                   "C07_ContFailureFails", "C08_TerminalBeforeRelease", "C08_FailStop", "C10_Quiescent", "C11_Untouched", "C12_AtMostOnce"}
     [] t = "PEnd" -> {"C04_Quiescent", "C05_Overrun"}
     [] t = "WaitRet" -> {"C03_AfterFailedBlock", "C04_Terminal", "C04_NothingRunning", "C04_Quiescent", "C04_Consistent", "C04_Times", "C04_Reason",
                          "C04_FailedCheckFailsPlan", "C05_Recorded", "C06_BypassSkips", "C06_BypassFailRuns", "C06_PreFailBlocks", "C06_ContInitialFail",
-                         "C07_ContFailureFails", "C07_DeferredOnce", "C07_DeferredFails", "C08_TerminalBeforeRelease",
+                         "C07_ContFailureFails", "C07_DeferredOnce", "C07_DeferredFails", "C08_TerminalBeforeRelease", "C08_FailStop",
                          "C10_Terminal", "C10_NothingRunning", "C10_Quiescent", "C10_Consistent", "C10_Times", "C10_DeferredRan", "C10_SameOutcome",
                          "C11_Untouched", "C11_AgedOut", "C11_Resumed"}
     [] t = "Read" -> {"C04_Stable", "C10_Stable", "C11_Untouched", "C11_AgedOut"}
@@ -501,6 +506,7 @@ Observe(s, e) ==
     [] e.ev = "PEnd" -> ObsPEnd(s, e)
     [] e.ev = "Crash" -> ObsCrash(s, e)
     [] e.ev = "WaitRet" -> [s EXCEPT !.waited = e.snap, !.wreason = e.reason]
+    [] e.ev = "WFail" -> [s EXCEPT !.wfailed = TRUE]
     [] e.ev = "R" -> [s EXCEPT !.rterm[e.obj] = IF Terminal(e.st) /\ @ = "none" THEN e.st ELSE @]
     [] OTHER -> s
 =============================================================================
